@@ -271,6 +271,10 @@ def check_case(case, ctx):
         elif not opts.get("drh") and obj_val < min(metrics) - tolm:
             ctx.fail("objective-below-min-metric", "objective %.9g is below the smallest metric %.9g" % (obj_val, min(metrics)))
     cert = oracles.certificate(pep, ob.sent_constraints, ob.sent_lmis)
+    if opts.get("ret", "dual") == "dual" and "shape_error" not in cert:
+        # the dual bound as the library reports it (the value returned in dual mode), not only the one rebuilt by the oracle
+        if obj_val > ob.result + k * 5 * (mscale + cert["scale"]):
+            ctx.fail("primal-exceeds-returned-dual", "primal value %.9g exceeds the dual bound %.9g returned by solve" % (obj_val, ob.result))
     if "shape_error" not in cert and cert["max_nonconst"] <= k * (cert["scale"] + abs(cert["const"])):
         dual = cert["const"]
         if obj_val > dual + k * 5 * (mscale + cert["scale"]):
